@@ -1171,6 +1171,11 @@ func unmarshalCandidateExtensions(raw string) (extensions []CandidateExtension, 
 		}
 		i = next
 
+		// An empty name cannot be re-marshaled (AddExtension rejects it as well).
+		if key == "" {
+			return extensions, "", fmt.Errorf("%w: key is empty", errParseExtension)
+		}
+
 		// while not spec-compliant, we allow for empty values, as seen in the wild
 		var value string
 		if i < len(raw) {
